@@ -373,15 +373,25 @@ def rule_cache_key_siblings(ctx):
                     else:
                         exprs = [k]
                     for e in exprs:
-                        sites.append((f, n.lineno, " ".join(src_of(e).split())))
+                        # shape of the key with the function's own names abstracted (v0, v1, ... in order of appearance):
+                        # siblings may call their locals differently, the *structure* of the key is what has to agree
+                        import copy as _copy
+                        e2 = _copy.deepcopy(e)
+                        order = {}
+                        fnames = {id(c_.func) for c_ in ast.walk(e2) if isinstance(c_, ast.Call)}
+                        for y in ast.walk(e2):
+                            if isinstance(y, ast.Name) and id(y) not in fnames:
+                                y.id = order.setdefault(y.id, f"v{len(order)}")
+                        sites.append((f, n.lineno, " ".join(src_of(e2).split())))
     r.floor(len(sites), 6, "accesses of _sampled_conditionals")
     shapes = {}
     for f, line, text in sites:
         shapes.setdefault(text, []).append((f, line))
     if len(shapes) == 1:
         text = next(iter(shapes))
-        names = {x.id for x in ast.walk(ast.parse(text, mode="eval")) if isinstance(x, ast.Name)}
-        if {"where", "result"} <= names and ".items()" in text:
+        kt = ast.parse(text, mode="eval").body
+        has_items = any(isinstance(x, ast.Call) and isinstance(x.func, ast.Attribute) and x.func.attr == "items" for x in ast.walk(kt))
+        if isinstance(kt, ast.Tuple) and len(kt.elts) >= 2 and has_items:
             r.ok("_sampled_conditionals[key]", sample={"key": text, "sites": [f"{f.qualname}:{l}" for f, l in shapes[text]][:8]})
         else:
             f0, l0 = shapes[text][0]
